@@ -97,6 +97,8 @@ class PubSubModel:
 
     def decide_connect(self, me: MConn, req_id: int, unique: bool, name: bytes):
         """Identity model (DESIGN 4.3)."""
+        if any(b >= 0x80 for b in name):
+            return DONT_CARE      # a name that is not ascii may be refused (C03 only asks that the manager survives)
         if req_id == 0:
             used = {m.mod_id for m in self.live() if m is not me}
             free = [i for i in range(C.DYN_MOD_ID_START, C.MAX_MODULES) if i not in used]
@@ -329,6 +331,8 @@ class PubSubModel:
             c.loggers = [x for x in c.loggers]
         else:
             m.mod_id = req_id
+            if decision == DONT_CARE:
+                m.mod_id = -1         # what the manager had taken over before refusing is not determined
             self._remove(m, fr.done_seq, "refused")
 
     def _deliver(self, sender: MConn, fr, next_read):
